@@ -1,34 +1,86 @@
 """Which obligations decide which property, and with which bounds (quick / thorough)."""
 import itertools
+import random
 
 from vf import harness
 
-LEVELS = {}      # property -> evidence level category
-
-
-def _merge_tasks(want, bound, arity, sample=None, seed=0):
-    shs = harness.shapes(*bound)
-    combos = list(itertools.product(shs, repeat=arity))
-    if sample is not None and len(combos) > sample:
-        import random
-        rnd = random.Random(seed)
-        combos = rnd.sample(combos, sample)
-    return [dict(module='contracts.merge', want=sorted(want), args=dict(shapes_=list(c))) for c in combos]
+LEVELS = {}      # property -> evidence level category (default 'other')
 
 
 def bound_text(bound):
-    return 'per signature: <=%d positional-only, <=%d positional-or-keyword, <=%d keyword-only, <=%d named in total, *args/**kwargs present or not' % (bound[0], bound[1], bound[2], bound[3])
+    return ('per signature: <=%d positional-only, <=%d positional-or-keyword, <=%d keyword-only, <=%d named in total, '
+            '*args/**kwargs present or not (names, defaults, annotations, provenance, flags, counts and call shapes symbolic)') % bound
+
+
+def _combos(bound, arity, sample=None, seed=0):
+    shs = harness.shapes(*bound)
+    combos = list(itertools.product(shs, repeat=arity))
+    exhaustive = True
+    if sample is not None and len(combos) > sample:
+        combos = random.Random(seed).sample(combos, sample)
+        exhaustive = False
+    return combos, exhaustive
+
+
+def g_merge(prop, bound, arity, sample=None, seed=0):
+    combos, ex = _combos(bound, arity, sample, seed)
+    return dict(name='merge/%d-ary' % arity, bound=bound_text(bound) + ('' if ex else '; %d shape tuples drawn with VERIF_SEED out of the full product' % len(combos)),
+                exhaustive=ex, tasks=[dict(module='contracts.merge', want=[prop], args=dict(shapes_=list(c))) for c in combos])
+
+
+def g_mask(prop, bound, nnames, mode='mask', hide=True):
+    shs = harness.shapes(*bound)
+    return dict(name='mask/%s/%d-names' % (mode, nnames), bound=bound_text(bound) + '; %d masked names, n symbolic%s' % (nnames, ', 16 hide_* combinations symbolic' if (hide and mode == 'mask') else ''),
+                exhaustive=True, tasks=[dict(module='contracts.mask', want=[prop], args=dict(shape=s, nnames=nnames, mode=mode, hide=hide)) for s in shs])
+
+
+def g_embed(prop, bound, mode='embed', sample=None, seed=0):
+    combos, ex = _combos(bound, 3 if mode == 'fold' else 2, sample, seed)
+    return dict(name='embed/%s' % mode, bound=bound_text(bound) + '; use_varargs/use_varkwargs symbolic' + ('' if ex else '; %d shape tuples drawn with VERIF_SEED' % len(combos)),
+                exhaustive=ex, tasks=[dict(module='contracts.embed', want=[prop], args=dict(shapes_=list(c), mode=mode)) for c in combos])
+
+
+def g_forwards(prop, bound, nnames=1, sample=None, seed=0):
+    combos, ex = _combos(bound, 2, sample, seed)
+    return dict(name='forwards', bound=bound_text(bound) + '; n, %d name(s), hide_args, hide_kwargs, use_varargs, use_varkwargs, partial symbolic' % nnames + ('' if ex else '; %d shape pairs drawn with VERIF_SEED' % len(combos)),
+                exhaustive=ex, tasks=[dict(module='contracts.forwards', want=[prop], args=dict(shapes_=list(c), nnames=nnames)) for c in combos])
+
+
+def g_partial(prop, bound, nkeys, mode='partial'):
+    shs = harness.shapes(*bound)
+    return dict(name='signature/%s/%d-keywords' % (mode, nkeys), bound=bound_text(bound) + ('; |args| symbolic, %d bound keywords with symbolic names and values' % nkeys if mode == 'partial' else '; eager or postponed annotations symbolic'),
+                exhaustive=True, tasks=[dict(module='contracts.partial', want=[prop], args=dict(shape=s, nkeys=nkeys, mode=mode)) for s in shs])
 
 
 def plan(prop, tier, seed=0):
     """returns list of job groups: dict(name, tasks, bound, exhaustive)"""
     q = tier == 'quick'
-    groups = []
-    if prop in ('C01', 'C09', 'C10', 'C08', 'C15', 'C16', 'C11'):
-        b2 = (1, 2, 1, 3) if q else (2, 2, 2, 4)
-        b3 = (1, 1, 1, 2) if q else (1, 2, 1, 3)
-        groups.append(dict(name='merge/2-ary', tasks=_merge_tasks({prop}, b2, 2), bound=bound_text(b2), exhaustive=True))
-        s3 = 400 if q else 12000
-        groups.append(dict(name='merge/3-ary', tasks=_merge_tasks({prop}, b3, 3, sample=s3, seed=seed), bound=bound_text(b3) + '; %d shape triples drawn with VERIF_SEED when the full product is larger' % s3,
-                           exhaustive=False))
-    return groups
+    G = []
+    B2 = (1, 2, 1, 3) if q else (2, 2, 2, 4)        # pairs
+    B3 = (1, 1, 1, 2) if q else (1, 2, 1, 3)        # triples
+    B1 = (1, 2, 1, 3) if q else (2, 3, 2, 5)        # single-signature units
+    BS = (1, 1, 1, 2) if q else (1, 2, 1, 3)        # expensive pair units (forwards)
+    if prop == 'C01':
+        G += [g_merge(prop, B2, 2), g_merge(prop, B3, 3, 400 if q else 12000, seed)]
+    elif prop == 'C09':
+        G += [g_merge(prop, B2, 2), g_merge(prop, B3, 3, 200 if q else 6000, seed), g_mask(prop, B1, 0, 'zero'),
+              g_embed(prop, B3 if q else B2, 'embed')]
+    elif prop == 'C02':
+        G += [g_embed(prop, B2, 'embed'), g_embed(prop, (1, 1, 0, 1) if q else B3, 'fold', 300 if q else 6000, seed)]
+    elif prop == 'C03':
+        G += [g_mask(prop, B1, 1), g_mask(prop, B1, 2, hide=not q), g_mask(prop, B1, 2, 'order'), g_mask(prop, B1, 0, 'zero'),
+              g_mask(prop, B1, 0, 'maskmask')]
+        if not q:
+            G += [g_mask(prop, (1, 2, 1, 3), 3, hide=False), g_mask(prop, (1, 2, 1, 3), 3, 'order')]
+    elif prop == 'C04':
+        G += [g_forwards(prop, BS, 1, 120 if q else 2500, seed)]
+    elif prop == 'C19':
+        G += [g_partial(prop, B1, 0), g_partial(prop, B1, 1), g_partial(prop, B1, 2)]
+        if not q:
+            G += [g_partial(prop, (1, 2, 1, 3), 3)]
+    elif prop in ('C08', 'C10', 'C11', 'C15', 'C16'):
+        G += [g_merge(prop, B2, 2), g_merge(prop, B3, 3, 150 if q else 4000, seed), g_mask(prop, B1, 1), g_embed(prop, B3 if q else B2, 'embed'),
+              g_forwards(prop, BS, 1, 60 if q else 1200, seed)]
+        if prop in ('C08', 'C10', 'C11'):
+            G += [g_partial(prop, B1, 1), g_partial(prop, B1 if q else (1, 2, 1, 3), 0, 'plain')]
+    return G
